@@ -792,6 +792,46 @@ static std::string op_util(const std::vector<std::string>& w)
         sb_interval_expand(&iv, f_of_hex(w[4]));
         return fhex(iv.min) + "," + fhex(iv.max);
     }
+    if (k == "boxexpand") {
+        sb_bounding_box_t bx;
+        bx.x.min = f_of_hex(w[2]); bx.x.max = f_of_hex(w[3]);
+        bx.y.min = f_of_hex(w[4]); bx.y.max = f_of_hex(w[5]);
+        bx.z.min = f_of_hex(w[6]); bx.z.max = f_of_hex(w[7]);
+        sb_bounding_box_expand(&bx, f_of_hex(w[8]));
+        return fhex(bx.x.min) + "," + fhex(bx.x.max) + "," + fhex(bx.y.min) + "," + fhex(bx.y.max) + "," + fhex(bx.z.min) + "," + fhex(bx.z.max);
+    }
+    if (k == "scale1") {
+        uint8_t sc = (uint8_t)atoi(w[2].c_str());
+        sb_error_t e = sb_scale_update_altitude(&sc, f_of_hex(w[3]));
+        return e == SB_SUCCESS ? S(sc) : code(e);
+    }
+    if (k == "scale2") {
+        uint8_t sc = (uint8_t)atoi(w[2].c_str());
+        sb_vector2_t v2; v2.x = f_of_hex(w[3]); v2.y = f_of_hex(w[4]);
+        sb_error_t e = sb_scale_update_vector2(&sc, v2);
+        return e == SB_SUCCESS ? S(sc) : code(e);
+    }
+    if (k == "rgbwtemp") {
+        // reference colour given as a colour temperature: same as the reference-colour method with the colour
+        // sb_rgb_color_from_color_temperature() returns; never above the original channels
+        sb_rgb_color_t c = sb_rgb_color_make((uint8_t)atoi(w[2].c_str()), (uint8_t)atoi(w[3].c_str()), (uint8_t)atoi(w[4].c_str()));
+        float t1 = f_of_hex(w[5]), t2 = f_of_hex(w[6]);
+        sb_rgbw_conversion_t conv, conv2;
+        memset(&conv, 0, sizeof conv);
+        memset(&conv2, 0, sizeof conv2);
+        sb_rgbw_conversion_use_color_temperature(&conv, t1);
+        sb_rgbw_conversion_use_color_temperature(&conv, t2);      // re-configuring (same or other temperature)
+        sb_rgb_color_t ref = sb_rgb_color_from_color_temperature(t2);
+        sb_rgbw_conversion_use_reference_color(&conv2, ref);
+        sb_rgbw_color_t o = sb_rgb_color_to_rgbw(c, conv), o2 = sb_rgb_color_to_rgbw(c, conv2);
+        sb_rgbw_conversion_turn_off(&conv2);
+        sb_rgbw_color_t o3 = sb_rgb_color_to_rgbw(c, conv2);
+        std::string out = S(ref.red) + "," + S(ref.green) + "," + S(ref.blue) + " " + S(o.red) + "," + S(o.green) + "," + S(o.blue) + "," + S(o.white);
+        out += sb_rgbw_color_equals(o, o2) ? " same" : " diff";
+        out += (sb_rgbw_color_equals(o3, sb_rgbw_color_make(c.red, c.green, c.blue, 0)) && sb_rgbw_color_almost_equals(o3, o3, 0)
+                && sb_rgb_color_equals(c, c) && sb_rgb_color_almost_equals(c, ref, 255)) ? " off-ok" : " off-bad";
+        return out;
+    }
     if (k == "interp") {
         sb_rgb_color_t a = sb_rgb_color_make((uint8_t)atoi(w[2].c_str()), (uint8_t)atoi(w[3].c_str()), (uint8_t)atoi(w[4].c_str()));
         sb_rgb_color_t b = sb_rgb_color_make((uint8_t)atoi(w[5].c_str()), (uint8_t)atoi(w[6].c_str()), (uint8_t)atoi(w[7].c_str()));
@@ -848,6 +888,18 @@ static std::string op_util(const std::vector<std::string>& w)
             case 'a': {
                 std::vector<uint8_t> d = unhex(arg);
                 r = sb_buffer_append_bytes(&b, d.data(), d.size());
+                break;
+            }
+            case 'b':
+                r = sb_buffer_append_byte(&b, (uint8_t)atoi(arg.c_str()));
+                break;
+            case 'k': {
+                std::vector<uint8_t> d = unhex(arg);
+                Guarded og(d);
+                sb_buffer_t other;
+                sb_buffer_init_view(&other, og.ptr, og.n);
+                r = sb_buffer_concat(&b, &other);
+                sb_buffer_destroy(&other);
                 break;
             }
             case 'z':
@@ -991,7 +1043,83 @@ static std::string op_poly(const std::vector<std::string>& w)
             out += "-";
         }
         out += " deg=" + S(sb_poly_get_degree(&p));
+        // the fixed-arity constructors must build the same polynomial (bit for bit)
+        if (n <= 4) {
+            sb_poly_t q;
+            memset(&q, 0, sizeof q);
+            float d = f_of_hex(w[2]);
+            switch (n) {
+            case 0: sb_poly_make_zero(&q); break;
+            case 1: sb_poly_make_constant(&q, xs[0]); break;
+            case 2: sb_poly_make_linear(&q, d, xs[0], xs[1]); break;
+            case 3: sb_poly_make_quadratic_bezier(&q, d, xs[0], xs[1], xs[2]); break;
+            default: sb_poly_make_cubic_bezier(&q, d, xs[0], xs[1], xs[2], xs[3]); break;
+            }
+            bool same = q.num_coeffs == p.num_coeffs && memcmp(q.coeffs, p.coeffs, p.num_coeffs * sizeof(float)) == 0;
+            out += same ? " alt=same" : " alt=diff:" + poly_coeffs(q);
+        }
         return out;
+    }
+    if (k == "4d") {
+        // sb_poly_4d_*: component-wise application of the 1-D functions (C against C, bit for bit)
+        sb_poly_4d_t q;
+        sb_poly_t c[4] = { poly_of(w[2]), poly_of(w[3]), poly_of(w[4]), poly_of(w[5]) };
+        float kf = f_of_hex(w[6]), u = f_of_hex(w[7]);
+        std::string bad;
+        auto load = [&]() { q.x = c[0]; q.y = c[1]; q.z = c[2]; q.yaw = c[3]; };
+        auto eq = [&](const sb_poly_t& a, const sb_poly_t& b) { return a.num_coeffs == b.num_coeffs && memcmp(a.coeffs, b.coeffs, a.num_coeffs * sizeof(float)) == 0; };
+        auto feq = [&](float a, float b) { return memcmp(&a, &b, 4) == 0 || (a != a && b != b); };
+        load();
+        sb_vector3_with_yaw_t v = sb_poly_4d_eval(&q, u);
+        if (!feq(v.x, sb_poly_eval(&c[0], u)) || !feq(v.y, sb_poly_eval(&c[1], u)) || !feq(v.z, sb_poly_eval(&c[2], u)) || !feq(v.yaw, sb_poly_eval(&c[3], u))) {
+            bad += " eval:" + vec4hex(v);
+        }
+        sb_poly_4d_deriv(&q);
+        sb_poly_t d[4] = { c[0], c[1], c[2], c[3] };
+        for (int i = 0; i < 4; i++) sb_poly_deriv(&d[i]);
+        if (!eq(q.x, d[0]) || !eq(q.y, d[1]) || !eq(q.z, d[2]) || !eq(q.yaw, d[3])) bad += " deriv";
+        load();
+        sb_poly_4d_scale(&q, kf);
+        for (int i = 0; i < 4; i++) { d[i] = c[i]; sb_poly_scale(&d[i], kf); }
+        if (!eq(q.x, d[0]) || !eq(q.y, d[1]) || !eq(q.z, d[2]) || !eq(q.yaw, d[3])) bad += " scale";
+        sb_vector3_with_yaw_t cv; cv.x = kf; cv.y = u; cv.z = -kf; cv.yaw = 2 * u;
+        sb_poly_4d_make_constant(&q, cv);
+        v = sb_poly_4d_eval(&q, 0.37f);
+        if (!feq(v.x, cv.x) || !feq(v.y, cv.y) || !feq(v.z, cv.z) || !feq(v.yaw, cv.yaw) || q.x.num_coeffs != 1 || q.yaw.num_coeffs != 1) bad += " const:" + vec4hex(v);
+        sb_poly_4d_make_zero(&q);
+        v = sb_poly_4d_eval(&q, 0.37f);
+        if (v.x != 0 || v.y != 0 || v.z != 0 || v.yaw != 0) bad += " zero:" + vec4hex(v);
+        return bad.empty() ? "4d=same" : "4d=diff" + bad;
+    }
+    if (k == "nullargs") {
+        // optional output arguments: the answers that are still delivered must not change
+        sb_poly_t p = poly_of(w[2]);
+        float y = f_of_hex(w[3]);
+        float r0[8], r1[8];
+        uint8_t n0 = 99, n1 = 99;
+        for (int i = 0; i < 8; i++) { r0[i] = r1[i] = NAN; }
+        sb_error_t e0 = sb_poly_solve(&p, y, r0, &n0);
+        sb_error_t e1 = sb_poly_solve(&p, y, 0, &n1);
+        sb_error_t e2 = sb_poly_solve(&p, y, r1, 0);
+        sb_error_t e3 = sb_poly_solve(&p, y, 0, 0);
+        std::string bad;
+        if (e1 != e0 || (e0 == SB_SUCCESS && n1 != n0)) bad += " solve-noroots:" + code(e1) + ":" + S(n1);
+        if (e2 != e0) bad += " solve-nocount:" + code(e2);
+        if (e0 == SB_SUCCESS && e2 == SB_SUCCESS) {
+            for (int i = 0; i < n0 && i < 8; i++) {
+                if (memcmp(&r0[i], &r1[i], 4) != 0) { bad += " solve-nocount-root" + S(i); break; }
+            }
+        }
+        if (e3 != e0) bad += " solve-none:" + code(e3);
+        float tr = NAN;
+        sb_bool_t t0 = sb_poly_touches(&p, y, &tr);
+        sb_bool_t t1 = sb_poly_touches(&p, y, 0);
+        if ((t0 ? 1 : 0) != (t1 ? 1 : 0)) bad += " touches-null";
+        sb_interval_t iv; iv.min = iv.max = NAN;
+        sb_error_t x0 = sb_poly_get_extrema(&p, &iv);
+        sb_error_t x1 = sb_poly_get_extrema(&p, 0);
+        if (x0 != x1) bad += " extrema-null:" + code(x1);
+        return bad.empty() ? "null=same" : "null=diff" + bad;
     }
     if (k == "eval") {
         sb_poly_t p = poly_of(w[2]);
